@@ -94,6 +94,7 @@ def check(ctx):
     ctx.rule("R5", "the tokenizer's column scans make progress on every cycle (the analyser, which runs it in tolerant mode over any text, returns)", floor=2)
     ctx.rule("R4", "the completion-context analyser's line-start table agrees with the lexer's notion of a line (\\n only)", floor=1)
     ctx.rule("R6", "the names the path completer offers are the names the file system reports: the glob walker's listing helper returns os.listdir entries themselves (filtered or sorted at most, never rewritten)", floor=1)
+    ctx.rule("R7", "the completion context a request works with is analysed from that request's whole text and cursor position: Completer.parse computes it by calling the analyser in this call on every path and keeps nothing from earlier requests (suffix and closing quote depend on the text *after* the cursor)", floor=2)
     ctx.rule("R3", "both emitters escape the closing delimiter in force, on every path, after backslash doubling and before the assembly start+name+end", floor=10)
 
     cq = ctx.repo.module(CQ)
@@ -392,6 +393,33 @@ def check(ctx):
         )
 
     _listing_verbatim(ctx)
+    _fresh_context(ctx)
+
+
+def _fresh_context(ctx):
+    cm = ctx.repo.module("xonsh/completer.py")
+    fn = flat(ctx, cm.func("Completer.parse"), 1, skip=("parse", "with_ctx"))
+    st = "xonsh/completer.py:Completer.parse"
+    cfg = CFG(fn)
+    defs = df.all_defs(fn)
+    text_p, cur_p = param_name(fn, 0), param_name(fn, 1)
+    calls = [n for n in cfg.nodes if n.kind == "stmt" and any(last_attr(c) == "parse" and isinstance(c.func, ast.Attribute) and "parser" in unparse(c.func.value) for c in calls_in(n.ast))]
+    if not calls:
+        raise AnchorMissing(f"{st}: the call of the context analyser")
+    # whole text, this request's cursor
+    for n in calls:
+        for c in calls_in(n.ast):
+            if last_attr(c) == "parse" and "parser" in unparse(c.func.value):
+                a0 = c.args[0] if c.args else None
+                a1 = c.args[1] if len(c.args) > 1 else None
+                ok0 = isinstance(a0, ast.Name) and a0.id == text_p and all(d.kind == "param" for d in defs.get(text_p, []))
+                ok1 = a1 is not None and cur_p in {x.id for x in ast.walk(a1) if isinstance(x, ast.Name)}
+                ctx.ob("R7", st, f"`{short(c, 60)}` analyses the request's whole text at its cursor position", ok0 and ok1, key="completer-parse|analyser-gets-other-than-request", where=loc(c))
+    rets = [n for n in cfg.nodes if n.kind == "stmt" and isinstance(n.ast, ast.Return) and n.ast.value is not None and const_value(n.ast.value, 0) is not None]
+    fresh = bool(rets) and all(r in calls or cfg.dominated(r, lambda m: m in calls) for r in rets)
+    ctx.ob("R7", st, "every context returned was analysed in this call (no path serves one from an earlier request)", fresh, key="completer-parse|context-not-from-this-call", where=loc(rets[0].ast) if rets else loc(fn))
+    stores = [n for n in walk_local(fn) if isinstance(n, (ast.Assign, ast.AugAssign)) and any(isinstance(x, ast.Attribute) and unparse(x.value) == "self" and isinstance(x.ctx, ast.Store) for t in (n.targets if isinstance(n, ast.Assign) else [n.target]) for x in ast.walk(t))]
+    ctx.ob("R7", st, "the method keeps nothing on the completer between requests", not stores, key="completer-parse|keeps-state", where=loc(stores[0]) if stores else loc(fn), detail=f"`{short(stores[0], 60)}`" if stores else None)
 
 
 def _listing_verbatim(ctx):
@@ -457,5 +485,5 @@ META = {
     "The string-level round trip and the analyser's totality are value properties and are not decided.",
     "note": "Decides the listed structural clause, not the behaviour. POSIX branch of the pattern is analysed. "
     "Known finding: `!` (BANG) is excluded from argument parts but does not trigger quoting.",
-    "more": "Also decided: the glob walker behind the path completer hands on os.listdir entries unmodified (the offered name is the file's name).",
+    "more": "Also decided: the glob walker behind the path completer hands on os.listdir entries unmodified (the offered name is the file's name). Completer.parse analyses each request's whole text in that call and keeps nothing between requests.",
 }
